@@ -223,6 +223,7 @@ int main(int argc, char **argv)
       size_t sl = 0; idx = parsec_mca_param_find("runtime", NULL, "comm_short_limit"); if (idx >= 0) { parsec_mca_param_lookup_sizet(idx, &sl); eff_short = (long)sl; } }
     cur_first.v = -1;
     flush_results("running");
+    MPI_Barrier(MPI_COMM_WORLD);      /* start-up skew between the ranks must not count against the first batch */
     pthread_t wd; pthread_create(&wd, NULL, watchdog, NULL);
     static caseid_t sk[8192], list[65536]; int nsk = parse_cases(skip, sk, 8192), nl = 0;
     if (only) nl = parse_cases(only, list, 65536);
